@@ -97,6 +97,7 @@ class Integ:
         self.hass = None
         self.dir = None
         self.log = LogCapture()
+        self.ha_log = LogCapture()  # what Home Assistant's core logs (an exception that escaped from pyscript into a service call)
         self.tz = tz
         self.initial_states = initial_states or {}
         self.dst_clock = dst_clock
@@ -171,6 +172,7 @@ class Integ:
             plog = logging.getLogger("custom_components.pyscript")
             plog.addHandler(self.log)
             self._plog = plog
+            logging.getLogger("homeassistant.core").addHandler(self.ha_log)
             for ent, (val, attrs) in self.initial_states.items():
                 self.hass.states.async_set(ent, val, attrs or {})
             ok = await async_setup_component(self.hass, "pyscript", self.config)
@@ -247,6 +249,7 @@ class Integ:
         with contextlib.suppress(Exception):
             if self._plog:
                 self._plog.removeHandler(self.log)
+            logging.getLogger("homeassistant.core").removeHandler(self.ha_log)
         try:
             if self.hass is not None:
                 with contextlib.suppress(Exception):
@@ -276,6 +279,9 @@ class Integ:
 
     def errors(self):
         return [r for r in self.log.records if r[1] in ("ERROR", "CRITICAL")]
+
+    def ha_errors(self):
+        return [r for r in self.ha_log.records if r[1] in ("ERROR", "CRITICAL")]
 
 
 def run_case(coro_fn, *args, timeout_real=120.0, **kwargs):
